@@ -18,6 +18,8 @@ run MC_ParXfer MC_ParXfer_wrap             # defect 5: strobe count count * N fo
 run MC_ParXfer MC_ParXfer_ovf              # defect 5, overflow checks on: panics
 run MC_Fused MC_Fused_nofuse_batch         # defect 6: draw_batch polls the pixel iterator after its first None
 run MC_Fused MC_Fused_nofuse_contig        # defect 7: fill_contiguous ignores the None of its initial nth()
+run MC_Builder MC_Builder_rstdrop           # reset_pin() drops the options set before it
+run MC_Builder MC_Builder_endcache          # window end cached by display_offset(), stale after display_size()
 run MC_Lifecycle MC_Lifecycle_flagfirst    # sleeping flag set before the command is sent
 run MC_Lifecycle MC_Lifecycle_short        # delay shorter than 120 ms
 rm -rf /verif/work/neg.$$
